@@ -313,6 +313,44 @@ def _pos(pm, v):
     return enc.pos(pm.adsb.position(m0, m1, t0, t1), v["kind"])
 
 
+@reg("adsb.surface_position.edge")
+def _spos_edge(pm, v):
+    """totality next to the decision boundaries of the float arguments: the receiver longitude is put within a few ulps of the
+    points where the choice among the four longitude candidates flips (45 / 135 degrees from the solution actually returned)"""
+    import math
+    m0, m1 = hx(v, "f0"), hx(v, "f1")
+    la0, lo0 = _ref(v)
+    try:
+        base = pm.adsb.position(m0, m1, v["t0"], v["t1"], la0, lo0)
+    except RuntimeError:
+        return {"t": "edge", "n": 0, "bad": 0}
+    if base is None:
+        return {"t": "edge", "n": 0, "bad": 0}
+    n = bad = 0
+    first = ""
+    for d in (-135.0, -45.0, 45.0, 135.0, -180.0, 180.0):
+        x = base[1] + d
+        for u in range(-4, 5):
+            y = x
+            for _ in range(abs(u)):
+                y = math.nextafter(y, math.inf if u > 0 else -math.inf)
+            for ref in (y, y - 360.0, y + 360.0):
+                if not -360.0 <= ref <= 360.0:
+                    continue
+                n += 1
+                try:
+                    r = pm.adsb.position(m0, m1, v["t0"], v["t1"], base[0], ref)
+                    if not (r is None or (isinstance(r, tuple) and len(r) == 2)):
+                        bad += 1
+                        first = first or "shape"
+                except RuntimeError:
+                    pass
+                except Exception as e:  # noqa: BLE001
+                    bad += 1
+                    first = first or type(e).__name__
+    return {"t": "edge", "n": n, "bad": bad, "exc": enc.text(first)}
+
+
 @reg("adsb.airborne_position")
 def _apos(pm, v):
     t0, t1 = _ts(v)
